@@ -10,7 +10,24 @@ import datetime
 import os
 import shlex
 
-WORDS = ['alpha', 'beta', 'total', 'rows', 'ok', 'done', 'Ünï', '日本', 'warning:', 'items', 'rate']
+WORDS = ['alpha', 'beta', 'total', 'rows', 'ok', 'done', 'Ünï', '日本', 'warning:', 'items', 'rate', '5 Å', 'kΩ']
+# one character -> another code point (sequence) that is canonically equivalent and renders alike: a change of the output all the same
+EQUIVALENT = {'Ü': 'U\u0308', 'ï': 'i\u0308', 'Å': '\u212b', 'Ω': '\u2126'}
+
+
+def _equiv_line(lines):
+    for k, l in enumerate(lines):
+        if any(ch in l for ch in EQUIVALENT):
+            return k
+    return None
+
+
+def _equiv_swap(l):
+    for ch in l:
+        if ch in EQUIVALENT:
+            return l.replace(ch, EQUIVALENT[ch], 1)
+    return l
+
 PUNCT = ['(', ')', '[x]', 'a|b', '*', '$HOME', '\\n', '"quoted"', "it's", '100%', '^start', 'end$', 'a.b', '{k: v}', '<tag>', '#', '~', 'C:\\dir']
 DATELIKE = ['31/02/2020', '2020-01-15', '1999-12-31', '12/25/2001', '15 Jan 2019', 'March 3, 2018', '2020-01-15 10:11:12',
             '2021-06-30T23:59:59', '1.2.3', '10-11-12', '00/00/00', '99.99.99']
@@ -156,10 +173,17 @@ def file_names(rng, n):
     return out
 
 
+TMPDIR_TOKEN = 'TMPDIRTOKEN'      # stands for the value $TMPDIR has when the command runs (expanded by the shell, per run)
+
+
+def _sh_word(l):
+    return '"$TMPDIR"'.join(shlex.quote(part) if part else '' for part in l.split(TMPDIR_TOKEN)) or "''"
+
+
 def _printf_text(lines):
     if not lines:
         return ':'
-    return 'printf ' + shlex.quote('%s\\n') + ' ' + ' '.join(shlex.quote(l) for l in lines)
+    return 'printf ' + shlex.quote('%s\\n') + ' ' + ' '.join(_sh_word(l) for l in lines)
 
 
 def _printf_bin(data):
@@ -177,12 +201,18 @@ def mutations(spec):
                 continue
             k += 1
             muts.append({'k': k, 'target': stream, 'how': how, 'line': (k * 7) % n if n else 0})
+        if _equiv_line(spec[stream]) is not None:
+            k += 1
+            muts.append({'k': k, 'target': stream, 'how': 'alter_equivalent', 'line': _equiv_line(spec[stream])})
     for fi, f in enumerate(spec['files']):
         for how in (('alter', 'add', 'missing') + (('alter_token',) if spec.get('machine') else ())) if f['kind'] == 'text' \
                 else ('alter', 'append', 'missing'):
             k += 1
             n = len(f['lines']) if f['kind'] == 'text' else len(bytes.fromhex(f['hex']))
             muts.append({'k': k, 'target': 'file', 'file': fi, 'name': f['name'], 'how': how, 'line': (k * 5) % n if n else 0})
+        if f['kind'] == 'text' and _equiv_line(f['lines']) is not None:
+            k += 1
+            muts.append({'k': k, 'target': 'file', 'file': fi, 'name': f['name'], 'how': 'alter_equivalent', 'line': _equiv_line(f['lines'])})
     k += 1
     muts.append({'k': k, 'target': 'status', 'how': 'change'})
     return muts
@@ -200,6 +230,8 @@ def mutated(spec, mut):
         elif mut['how'] == 'alter_token':
             # the NEW text mentions something machine-specific (the working directory) that the old line did not
             ls[mut['line']] = 'now in ' + s['machine']['cwd']
+        elif mut['how'] == 'alter_equivalent':
+            ls[mut['line']] = _equiv_swap(ls[mut['line']])
         elif mut['how'] == 'add':
             ls.insert(mut['line'], 'an extra line')
         else:
@@ -213,6 +245,8 @@ def mutated(spec, mut):
                 f['lines'][mut['line']] = f['lines'][mut['line']] + ' CHANGED'
             elif mut['how'] == 'alter_token':
                 f['lines'][mut['line']] = 'now in ' + s['machine']['cwd']
+            elif mut['how'] == 'alter_equivalent':
+                f['lines'][mut['line']] = _equiv_swap(f['lines'][mut['line']])
             else:
                 f['lines'].insert(mut['line'], 'an extra line')
         else:
